@@ -236,6 +236,20 @@ def refute(tier, seed, emit):
                         emit.violation(cl, w, msg)
         if emit.full:
             return
+    # quantised recordings (plateaus of equal samples, flat-topped extrema): time reversal and sign flip must still commute
+    emit.scope('%d signals quantised to steps of 0.25 (flat-topped extrema of even and odd length) x {reverse, factor -1, factor 4} x {get_next_imf, sift} x {sd / splrep / pad 2, fixed / splrep / pad 1}' % nsig)
+    for si, x in enumerate(sigs):
+        xq = np.round(np.asarray(x) * 4) / 4
+        for o in ({'rule': 'sd', 'step': 1, 'interp': 'splrep', 'pad': 2}, {'rule': 'fixed', 'step': 1, 'interp': 'splrep', 'pad': 1}):
+            for fn in ('get_next_imf', 'sift'):
+                for tr in (('reverse',), ('scale', -1.0), ('scale', 4.0)):
+                    emit.case(('quant', si, o['rule'], fn, tr), nontrivial=True, contract=fn)
+                    w = {'kind': 'equivariance', 'x': xq.tolist(), 'opts': o, 'fn': fn, 'transform': list(tr)}
+                    ok, msg = replay(w)
+                    if ok:
+                        emit.violation(('time-reversal' if tr[0] == 'reverse' else 'scaling') + ':' + fn + ':quantised', w, msg)
+        if emit.full:
+            return
     # the scale-free stopping metrics themselves, on random envelope pairs / iterate pairs
     nst = 300 if tier == 'quick' else 3000
     emit.scope('%d seeded envelope pairs (upper > lower, mean envelope of either sign, lengths 8..64) x rilling thresholds x factors {-1, 4, -0.25}: rilling_stop decision and metric unchanged; the same for sd_stop on iterate pairs' % nst)
